@@ -221,6 +221,12 @@ def families(tier='quick', seed=0):
     add('nested', 'n:[{f},{f}]', {'idents': {'A': M((K('n'), L(M((K('f'), S('a'))), M((K('f'), S('b'))))))}, 'cond': ('id', 'A')})
     add('nested', 'seq n.f|n.g', {'idents': {'A': ('seq', [M((K('n'), M((K('f'), S('a'))))), M((K('n'), M((K('g'), S('b')))))])}, 'cond': ('id', 'A')})
     add('nested', 'n.f,n.f2 in one map', {'idents': {'A': M((K('n'), M((K('f'), S('a')))), (K('g'), S('c')))}, 'cond': ('id', 'A')})
+    # dotted / indexed keys (paths resolved by Object::find when the document implements Object)
+    add('dotted', 'n.f', {'idents': {'A': M((K('n.f'), S('a')))}, 'cond': ('id', 'A')})
+    add('dotted', 'n.m.f', {'idents': {'A': M((K('n.m.f'), S('a*')), (K('g'), ('i', 1)))}, 'cond': ('id', 'A')})
+    add('dotted', 'n.f[0]', {'idents': {'A': M((K('n.f[0]'), S('a')))}, 'cond': ('id', 'A')})
+    add('dotted', 'f[1].g', {'idents': {'A': M((K('f[1].g'), S('*a')))}, 'cond': ('id', 'A')})
+    add('dotted', 'n.f or m.f', {'idents': {'A': M((K('n.f'), S('a'))), 'B': M((K('m.f'), L(S('b'), S('c*'))))}, 'cond': ('or', ('id', 'A'), ('id', 'B'))})
     # E: conditions over identifiers
     A = M((K('f'), S('a')))
     B = M((K('g'), S('b*')))
